@@ -9,6 +9,8 @@
            "stat":"ok|missing|denied"?}   (`/proc/<pid>/stat` itself; absent = ok while `dir`)
           F = {"data":hex} | {"err":"ENOENT|ESRCH|EACCES"},  L = {"target":hex} | {"err":…}
           kind = "absent"|"denied"|"dir"|"file"|"filex"   (paths not listed are absent)
+          or [hex, "unstatable", errno, class]: os.stat fails with that errno, raised as that OSError (sub)class
+          (any of CPython's but FileNotFoundError / PermissionError, which are `absent` / `denied`)
         | {"op":"many","call":"cmdline|environ","zombie":bool,"blocks":[hex,…]}
         the stateless calls on many file contents at once (exhaustive small enumerations): for each block the
         world is a live/zombie process whose cmdline resp. environ file holds exactly these bytes
@@ -19,7 +21,8 @@
    out: {"model": out, "spec": out | null}
    out: {"kind":"ok","args":[hex…]} | {"kind":"ok","dict":[[hex,hex]…]} | {"kind":"ok","str":hex}
         | {"kind":"ok","opt":hex|null}
-        | {"kind":"exc","exc":"NoSuchProcess|ZombieProcess|AccessDenied|FileNotFoundError"} -/
+        | {"kind":"exc","exc":"NoSuchProcess|ZombieProcess|AccessDenied|FileNotFoundError"}
+        | {"kind":"exc","exc":"OSError","errno":n}   (an OSError of any other class that no layer translated) -/
 import PsutilModel.Base.Proto
 import PsutilModel.Model.C12Gen
 import PsutilModel.Spec.C12
@@ -48,13 +51,29 @@ def parseEnt (s : String) : R FsEnt :=
   else if s == "dir" then .ok .dir else if s == "file" then .ok (.file false)
   else if s == "filex" then .ok (.file true) else .error s!"bad fs kind {s}"
 
+/-- the class of a failing `os.stat` by its Python name. FileNotFoundError and PermissionError are refused: they
+    have kinds of their own (`absent`, `denied`), so that every world has one JSON form -/
+def parseOsCls (s : String) : R OsCls :=
+  match OsCls.all.find? (fun c => c.name == s) with
+  | some .fileNotFound => .error "stat failure FileNotFoundError: use kind absent"
+  | some .permission => .error "stat failure PermissionError: use kind denied"
+  | some c => .ok c
+  | none => .error s!"unknown OSError class {s}"
+
 def parseFsEntry (e : Json) : R (Bytes × FsEnt) :=
   match e.getArr? with
   | .ok #[p, k] => do
     let p ← asBytes p
     let k ← asStr k >>= parseEnt
     pure (p, k)
-  | _ => .error "fs entry must be [hexpath, kind]"
+  | .ok #[p, k, en, cls] => do
+    let p ← asBytes p
+    let k ← asStr k
+    if k != "unstatable" then throw s!"bad 4-field fs kind {k}"
+    let en ← asNat en
+    let cls ← asStr cls >>= parseOsCls
+    pure (p, .unstatable en cls)
+  | _ => .error "fs entry must be [hexpath, kind] or [hexpath, \"unstatable\", errno, class]"
 
 def parseNatBytes (e : Json) : R (Nat × Bytes) :=
   match e.getArr? with
@@ -107,9 +126,11 @@ def excName : Exc → String
   | .zombieProcess => "ZombieProcess"
   | .accessDenied => "AccessDenied"
   | .fileNotFound => "FileNotFoundError"
+  | .osError _ => "OSError"
 
 def jRes (key : String) (f : α → Json) : Res α → Json
   | .ok v => jObj [("kind", "ok"), (key, f v)]
+  | .error (.osError en) => jObj [("kind", "exc"), ("exc", Json.str "OSError"), ("errno", jNat en)]
   | .error e => jObj [("kind", "exc"), ("exc", Json.str (excName e))]
 
 def jOut : Out → Json
